@@ -25,7 +25,7 @@ func (c *FnCtx) entryAssumptions(items *[]Item) {
 	if c.con != nil {
 		env := c.specEnvFor(c.entry, c.entry, nil)
 		for _, r := range c.con.Requires {
-			f := env.trBool(r.E)
+			f := env.trAssume(r.E)
 			for _, ft := range env.facts {
 				c.assume(items, ft)
 			}
@@ -37,7 +37,9 @@ func (c *FnCtx) entryAssumptions(items *[]Item) {
 
 // defaultNonNil: pointer-typed parameters of module functions are non-nil unless declared nullable.
 func (c *FnCtx) defaultNonNil(fn *ssa.Function, con *Contract, name string, t types.Type) bool {
-	if _, isPtr := t.Underlying().(*types.Pointer); !isPtr {
+	switch t.Underlying().(type) {
+	case *types.Pointer, *types.Signature:
+	default:
 		return false
 	}
 	if con != nil && con.Nullable[name] {
@@ -114,6 +116,28 @@ func (c *FnCtx) call(in ssa.CallInstruction, cc *ssa.CallCommon) Val {
 	con := c.V.contractOf(callee)
 	key := c.V.FuncKey[callee]
 	inMod := c.V.inModule(callee)
+	if !inMod && (callee.String() == "sort.Slice" || callee.String() == "sort.Strings") {
+		// built-in model: contents of the slice argument become arbitrary (same length)
+		var sv ssa.Value = cc.Args[0]
+		if mi, ok := sv.(*ssa.MakeInterface); ok {
+			sv = mi.X
+		}
+		if st2, ok := sv.Type().Underlying().(*types.Slice); ok {
+			s := c.val(sv)
+			a := c.backArr(st2.Elem())
+			c.setArr(st, a, sStore(c.arrIn(st, a), sx("sref", s.T), c.freshConst("sorted", arrSort(SInt, c.sortOf(st2.Elem())))))
+			c.note(callee.String() + ": built-in model (elements of the argument become arbitrary; permutation/sortedness not assumed)")
+		}
+		c.libCallbackEffects(cc)
+		return Val{Tup: []Val{}}
+	}
+	if !inMod && sig.Recv() != nil && len(args) > 0 {
+		if _, isPtr := sig.Recv().Type().Underlying().(*types.Pointer); isPtr && !(con != nil && con.Nullable["recv"]) {
+			if !c.isLocal(cc.Args[0]) {
+				c.assert(c.curItems, "nilderef", "nilderef", exprText(cc.Args[0])+"."+callee.Name()+"()", sNot(sEq(args[0].T, "0")), in, nil, true)
+			}
+		}
+	}
 	if !inMod {
 		key = libKey(callee)
 		if callee.Blocks == nil || true {
@@ -127,6 +151,11 @@ func (c *FnCtx) call(in ssa.CallInstruction, cc *ssa.CallCommon) Val {
 			for i := off; i < len(cc.Args); i++ {
 				names = append(names, paramName(sig, i-off))
 			}
+		}
+	}
+	for _, a := range cc.Args {
+		if mc, ok := a.(*ssa.MakeClosure); ok {
+			c.assertClosureRequires(mc, in)
 		}
 	}
 	// purity of closures handed to module functions
@@ -151,9 +180,13 @@ func (c *FnCtx) call(in ssa.CallInstruction, cc *ssa.CallCommon) Val {
 	if !inMod {
 		c.usedLib[key] = true
 	}
+	preState := c.cur.clone()
 	r := c.applyContractFn(in, callee, con, key, sig, args, names, resType, inMod)
 	if !inMod {
 		c.libCallbackEffects(cc)
+		if strings.HasSuffix(key, "typeutil.Map).Iterate") {
+			c.iterateEach(cc, preState)
+		}
 	}
 	return r
 }
@@ -171,6 +204,7 @@ func paramName(sig *types.Signature, i int) string {
 // libCallbackEffects: a library function that receives closures may run them: havoc their modification sets.
 func (c *FnCtx) libCallbackEffects(cc *ssa.CallCommon) {
 	st := c.cur
+	preCall := st.clone()
 	mods := map[string]bool{}
 	for _, a := range cc.Args {
 		if mc, ok := a.(*ssa.MakeClosure); ok {
@@ -198,6 +232,120 @@ func (c *FnCtx) libCallbackEffects(cc *ssa.CallCommon) {
 		na := c.freshConst("alloc@cb", SInt)
 		c.assume(c.curItems, sx("<=", st.alloc, na))
 		st.alloc = na
+	}
+	// callback schema: the parameter-free preconditions of a callback act as the invariant of the
+	// callback loop: asserted at hand-over (assertClosureRequires), re-established by the closure on
+	// every return (requires-preserved obligations), hence they hold after the library call.
+	for _, a := range cc.Args {
+		if mc, ok := a.(*ssa.MakeClosure); ok {
+			c.closureRequires(mc, func(r *Clause, f string) {
+				c.assume(c.curItems, f)
+			})
+			// frame clauses: transitive two-state properties proved for every invocation hold
+			// between the state before the library call and the state after it
+			cf := mc.Fn.(*ssa.Function)
+			if con := c.V.contractOf(cf); con != nil {
+				for _, fr := range con.Frames {
+					env := &SEnv{c: c, st: st, old: preCall, vars: map[string]Val{}, bound: map[string]bool{}}
+					for bi, b := range mc.Bindings {
+						fv := cf.FreeVars[bi]
+						bv := c.val(b)
+						if pt := derefType(fv.Type()); pt != nil && !strings.HasSuffix(cf.Name(), "$bound") {
+							// captured cell: its content may differ between the two states; bind the name to the cell
+							// content in the new state, and let old(...) re-read it from the old state
+							env.vars[fv.Name()] = c.loadLoc(st, c.ptrLoc(bv.T, pt, false))
+						} else {
+							env.vars[fv.Name()] = bv
+						}
+					}
+					c.assume(c.curItems, env.trAssume(fr.E))
+					c.note("callback frame clause (must be reflexive and transitive): " + fr.Text)
+				}
+			}
+		}
+	}
+}
+
+// iterateEach: trusted schema of (*typeutil.Map).Iterate(f): f is invoked for every key of the
+// receiver (as it was at the call). For an "each q :: P(q)" clause of the callback (established for
+// tid(key) at every return and proved stable), P(q) therefore holds afterwards for every q in the
+// receiver's domain.
+func (c *FnCtx) iterateEach(cc *ssa.CallCommon, pre *State) {
+	if len(cc.Args) < 2 {
+		return
+	}
+	mc, ok := cc.Args[1].(*ssa.MakeClosure)
+	if !ok {
+		return
+	}
+	cf := mc.Fn.(*ssa.Function)
+	con := c.V.contractOf(cf)
+	if con == nil || len(con.Each) == 0 {
+		return
+	}
+	recv := c.val(cc.Args[0])
+	st := c.cur
+	c.ghostArr("TMD")
+	for i, cl := range con.Each {
+		qn := con.EachVar[i]
+		env := &SEnv{c: c, st: st, old: st, vars: map[string]Val{}, bound: map[string]bool{}}
+		for bi, b := range mc.Bindings {
+			fv := cf.FreeVars[bi]
+			bv := c.val(b)
+			if pt := derefType(fv.Type()); pt != nil && !strings.HasSuffix(cf.Name(), "$bound") {
+				env.vars[fv.Name()] = c.loadLoc(st, c.ptrLoc(bv.T, pt, false))
+			} else {
+				env.vars[fv.Name()] = bv
+			}
+		}
+		env.vars[qn] = Val{T: "q_" + qn, S: SInt, GT: types.Typ[types.Int]}
+		env.bound[qn] = true
+		body := env.trAssume(cl.E)
+		dom := sSel(sSel(c.arrIn(pre, "TMD"), recv.T), "q_"+qn)
+		c.assume(c.curItems, fmt.Sprintf("(forall ((q_%s Int)) %s)", qn, sImp(dom, body)))
+		c.note("Iterate schema (trusted): the callback runs for every key of the receiver; each-clause: " + cl.Text)
+	}
+}
+
+// closureRequires evaluates the parameter-free preconditions of closure mc in the current state.
+func (c *FnCtx) closureRequires(mc *ssa.MakeClosure, use func(r *Clause, f string)) {
+	c.closureRequiresPol(mc, 1, use)
+}
+
+func (c *FnCtx) closureRequiresPol(mc *ssa.MakeClosure, pol int, use func(r *Clause, f string)) {
+	cf := mc.Fn.(*ssa.Function)
+	con := c.V.contractOf(cf)
+	if con == nil || len(con.Requires) == 0 {
+		return
+	}
+	st := c.cur
+	env := &SEnv{c: c, st: st, old: st, vars: map[string]Val{}, bound: map[string]bool{}}
+	for i, b := range mc.Bindings {
+		fv := cf.FreeVars[i]
+		bv := c.val(b)
+		if pt := derefType(fv.Type()); pt != nil && !strings.HasSuffix(cf.Name(), "$bound") {
+			env.vars[fv.Name()] = c.loadLoc(st, c.ptrLoc(bv.T, pt, false))
+		} else {
+			env.vars[fv.Name()] = bv
+		}
+	}
+	for _, r := range con.Requires {
+		var f string
+		ok := true
+		func() {
+			defer func() {
+				if rec := recover(); rec != nil {
+					ok = false
+				}
+			}()
+			env.pol = pol
+			f = env.trBool(r.E)
+		}()
+		if !ok {
+			c.note("callback schema fact assumed in " + c.V.FuncKey[cf] + ": " + r.Text)
+			continue
+		}
+		use(r, f)
 	}
 }
 
@@ -232,13 +380,23 @@ func (c *FnCtx) applyContract(in ssa.CallInstruction, callee *ssa.Function, con 
 		}
 	}
 	for _, r := range con.Requires {
-		f := env.trBool(r.E)
-		for _, ft := range env.facts {
-			c.assume(c.curItems, ft)
+		if !clauseActive(r, c.prop) {
+			continue
 		}
-		env.facts = nil
-		ob := c.assert(c.curItems, "requires", fmt.Sprintf("requires@%s#%d", short, r.Ord), "", f, in, r.Tags, len(r.Tags) == 0)
-		ob.Text = r.Text
+		parts := c.V.DB.splitConj(r.E, 0)
+		for pi, pe := range parts {
+			f := env.trGoal(pe)
+			for _, ft := range env.facts {
+				c.assume(c.curItems, ft)
+			}
+			env.facts = nil
+			stem := fmt.Sprintf("requires@%s#%d", short, r.Ord)
+			if len(parts) > 1 {
+				stem = fmt.Sprintf("requires@%s#%d.%d", short, r.Ord, pi+1)
+			}
+			ob := c.assert(c.curItems, "requires", stem, "", f, in, r.Tags, len(r.Tags) == 0)
+			ob.Text = r.Text
+		}
 	}
 	// effects
 	if con.HasMod {
@@ -291,7 +449,7 @@ func (c *FnCtx) applyContract(in ssa.CallInstruction, callee *ssa.Function, con 
 	}
 	if !con.Pure { // pure ensures are available as axioms
 		for _, e := range con.Ensures {
-			f := post.trBool(e.E)
+			f := post.trAssume(e.E)
 			for _, ft := range post.facts {
 				c.assume(c.curItems, ft)
 			}
@@ -463,14 +621,19 @@ func (c *FnCtx) appendOp(in ssa.CallInstruction, cc *ssa.CallCommon) Val {
 	}
 	ref := c.allocRef("append")
 	base := sx("+", sx("soff", s.T), sx("slen", s.T))
+	c.ix("0", "0")
 	old := sSel(c.arrIn(st, arr), sx("sref", s.T))
 	var data string
 	var newLen string
 	if fixed >= 0 {
 		data = old
 		src := sSel(c.arrIn(st, arr), sx("sref", t.T))
+		_, elemIsPtr := et.Underlying().(*types.Pointer)
 		for i := 0; i < fixed; i++ {
-			data = sStore(data, sx("+", base, sInt(int64(i))), sSel(src, sx("+", sx("soff", t.T), sInt(int64(i)))))
+			if elemIsPtr {
+				c.assert(c.curItems, "nilelem", "nilelem", "append", sNot(sEq(sSel(src, c.ix(sx("soff", t.T), sInt(int64(i)))), "0")), in, nil, true)
+			}
+			data = sStore(data, c.ix(sx("soff", s.T), sx("+", sx("slen", s.T), sInt(int64(i)))), sSel(src, c.ix(sx("soff", t.T), sInt(int64(i)))))
 		}
 		newLen = sx("+", sx("slen", s.T), sInt(int64(fixed)))
 	} else {
@@ -520,7 +683,7 @@ func (c *FnCtx) assumeFieldInv(x *ssa.UnOp, l *Loc, v Val) {
 		return
 	}
 	env := &SEnv{c: c, st: c.cur, old: c.entry, vars: map[string]Val{"v": v}, bound: map[string]bool{}}
-	c.assume(c.curItems, env.trBool(fi.E))
+	c.assume(c.curItems, env.trAssume(fi.E))
 	c.note("field invariant " + fi.Type + "." + fi.Field + ": " + fi.Text)
 }
 
@@ -533,7 +696,7 @@ func (c *FnCtx) checkFieldInv(x *ssa.Store, l *Loc, v Val) {
 		return
 	}
 	env := &SEnv{c: c, st: c.cur, old: c.entry, vars: map[string]Val{"v": v}, bound: map[string]bool{}}
-	ob := c.assert(c.curItems, "fieldinv", "fieldinv", fi.Type+"."+fi.Field, env.trBool(fi.E), x, nil, true)
+	ob := c.assert(c.curItems, "fieldinv", "fieldinv", fi.Type+"."+fi.Field, env.trGoal(fi.E), x, nil, true)
 	ob.Text = fi.Text
 }
 
@@ -542,4 +705,64 @@ func pkgOfType(t types.Type) *types.Package {
 		return n.Obj().Pkg()
 	}
 	return nil
+}
+
+// assertClosureRequires: a closure handed to a callee may be invoked by it; its
+// preconditions (over captured variables) must hold at the hand-over, and the closure
+// re-establishes them on every return (checked in ret), so they hold at every invocation.
+func (c *FnCtx) assertClosureRequires(mc *ssa.MakeClosure, in ssa.Instruction) {
+	cf := mc.Fn.(*ssa.Function)
+	short := strings.Replace(c.V.FuncKey[cf], ":", ".", 1)
+	c.closureRequiresPol(mc, -1, func(r *Clause, f string) {
+		ob := c.assert(c.curItems, "requires", fmt.Sprintf("requires@%s#%d", short, r.Ord), "", f, in, r.Tags, len(r.Tags) == 0)
+		ob.Text = r.Text
+	})
+}
+
+// isCapturedCell: binding b is the address of a captured variable (Alloc or an outer FreeVar).
+func isCapturedCell(b ssa.Value) bool {
+	switch b.(type) {
+	case *ssa.Alloc, *ssa.FreeVar:
+		return true
+	}
+	return false
+}
+
+// checkAllocFieldInvs: a freshly allocated module struct must have every field that carries a
+// field invariant initialised in the same basic block (composite-literal pattern); otherwise the
+// zero value must satisfy the invariant.
+func (c *FnCtx) checkAllocFieldInvs(x *ssa.Alloc, ref string) {
+	pt := derefType(x.Type())
+	st, ok := pt.Underlying().(*types.Struct)
+	if !ok || !c.V.ModPkgs[pkgOfType(pt)] {
+		return
+	}
+	tn := tstr(pt)
+	for i := 0; i < st.NumFields(); i++ {
+		fname := st.Field(i).Name()
+		var fi *FieldInv
+		for _, cand := range c.V.DB.FieldInvs {
+			if cand.Field == fname && (cand.Type == tn || strings.HasSuffix(tn, "."+cand.Type)) {
+				fi = cand
+			}
+		}
+		if fi == nil {
+			continue
+		}
+		initialised := false
+		for _, in := range x.Block().Instrs {
+			if stt, ok := in.(*ssa.Store); ok {
+				if fa, ok := stt.Addr.(*ssa.FieldAddr); ok && fa.X == ssa.Value(x) && fa.Field == i {
+					initialised = true
+				}
+			}
+		}
+		if initialised {
+			continue
+		}
+		zero := Val{T: c.zeroOf(st.Field(i).Type()), S: c.sortOf(st.Field(i).Type()), GT: st.Field(i).Type()}
+		env := &SEnv{c: c, st: c.cur, old: c.entry, vars: map[string]Val{"v": zero}, bound: map[string]bool{}}
+		ob := c.assert(c.curItems, "fieldinv", "fieldinv", fi.Type+"."+fi.Field+" (zero value at allocation)", env.trGoal(fi.E), x, nil, true)
+		ob.Text = fi.Text
+	}
 }
